@@ -311,7 +311,12 @@ def random_type(rng, depth, top=True, rich=True):
         elif ft['k'] != 'CHOICE' and ft['k'] != 'ANY' and (static_tags(ft) & used or rng.random() < 0.4):
             ft = dict(ft, tags=list(ft['tags']) + [(rng.choice('IE'), CTX, i)])
         if static_tags(ft) & used:
-            ft = dict(ft, tags=list(ft['tags']) + [('E', PRIV, 100 + i)])
+            # an escape tag that nothing on this level carries yet -- also not an alternative of an untagged CHOICE
+            # member, which got its own escape tags by the same rule one level down
+            num = 100 + i
+            while (PRIV, num) in used:
+                num += 50
+            ft = dict(ft, tags=list(ft['tags']) + [('E', PRIV, num)])
         used |= static_tags(ft)
         mode = 'req'
         if k != 'CHOICE':
